@@ -210,7 +210,9 @@ func genData(t *rapid.T, ti tplInfo) []byte {
 	n := rapid.IntRange(0, maxRecs).Draw(t, "nrec")
 	var body []byte
 	for i := 0; i < n; i++ {
-		body = ref.EncodeDataRecord(body, view, gen.Record(t, view, 400))
+		r := gen.Record(t, view, 400)
+		gen.LongPrefixes(t, view, r)
+		body = ref.EncodeDataRecord(body, view, r)
 		if len(body) > 60000 {
 			break
 		}
@@ -562,7 +564,9 @@ func genTCase(t *rapid.T) TCase {
 	for n := rapid.IntRange(2, 5).Draw(t, "nmsg"); n > 0; n-- {
 		var recs [][]ref.Value
 		for k := rapid.IntRange(1, 3).Draw(t, "nrec"); k > 0; k-- {
-			recs = append(recs, gen.Record(t, view, rapid.SampledFrom([]int{8, 40, 300, 5000}).Draw(t, "maxvar")))
+			r := gen.Record(t, view, rapid.SampledFrom([]int{8, 40, 300, 5000}).Draw(t, "maxvar"))
+			gen.LongPrefixes(t, view, r)
+			recs = append(recs, r)
 		}
 		c.Msgs = append(c.Msgs, recs)
 	}
